@@ -94,7 +94,7 @@ Definition mem_toks (m : bmem) : list tok :=
   match m with
   | MEsc c => [esc_tok c]
   | MOpen => [TLit 91]
-  | MRaw c => [TRaw c]
+  | MRaw c => if mem c [91; 92; 93] then [TUnm] else [TRaw c]   (* never produced by the PEG *)
   end.
 
 Definition item_toks (i : citem) : list tok :=
@@ -185,8 +185,12 @@ Fixpoint strip_dashes (ts : list tok) (acc : cset) : list tok * cset :=
   | [] => ([], acc)
   end.
 
-Definition class_sem (items : list citem) : cres :=
+Definition starts_caret (ts : list tok) : bool :=
+  match ts with t :: _ => is_raw t 94 | [] => false end.
+
+Definition class_sem (neg : bool) (items : list citem) : cres :=
   let ts := flat_map item_toks items in
+  if negb neg && starts_caret ts then CUnm else      (* "[^": never produced by the PEG *)
   let '(ts', acc) := strip_dashes ts cempty in
   match cls_union ts' acc with
   | UOk f more => cls_ops (length ts) f more
@@ -215,7 +219,7 @@ Definition st_join (a b : status) : status :=
 
 Fixpoint re_status (r : re) : status :=
   match r with
-  | RSet _ items => match class_sem items with COk _ => SOk | CErr => SErr | CUnm => SUnm end
+  | RSet neg items => match class_sem neg items with COk _ => SOk | CErr => SErr | CUnm => SUnm end
   | RCat a b | RAlt a b => st_join (re_status a) (re_status b)
   | RGrp a | RNcg a | RStar a | RPlus a | ROpt a | RPlusLazy a | RNegLook a | RAtomic a => re_status a
   | _ => SOk
@@ -241,7 +245,7 @@ Section Match.
     match a with Some x => Some x | None => b tt end.
 
   Definition set_matches (neg : bool) (items : list citem) (x : char) : bool :=
-    match class_sem items with
+    match class_sem neg items with
     | COk f => xorb neg (fold_set ci f x)
     | _ => false
     end.
